@@ -11,6 +11,7 @@
       differences (translation law)
   U5  coefficients: CL1 = L/(q S), CDi = D/(q S), area-weighted totals
   U6  panel force = rho x circulation x (velocity x bound vector): linear in rho
+  U7  one cg / omega reaches every component that uses it (exposure through the groups)
 """
 import re
 
@@ -288,8 +289,8 @@ def u4(chk, repo):
                 chk.undecided("U4", key, c.where, "opaque sub-expressions", algebraic=True)
 
 
-def u6(chk, repo):
-    chk.rule("U6", "PanelForces: panel_forces = rho x horseshoe circulation x (velocity at the force point x bound vector), linear in rho and in the circulation", min_decided=1)
+def u6(chk, repo, rule="U6"):
+    chk.rule(rule, "PanelForces: panel_forces = rho x horseshoe circulation x (velocity at the force point x bound vector), linear in rho and in the circulation", min_decided=1)
     c = repo.cls("openaerostruct/aerodynamics/panel_forces.py", "PanelForces")
     m = component_model(repo, c, domains=(SymX,))
     for r in m.runs.get("compute", []):
@@ -301,7 +302,7 @@ def u6(chk, repo):
         if rho is None:
             rho = a.s("rho[0]")
         want = rho * g * CROSS(v, l) if None not in (rho, g, v, l) else None
-        check_identity(chk, "U6", "PanelForces.panel_forces", c.where, _out(r, "panel_forces"), want, t, "F = rho Gamma (v x l)")
+        check_identity(chk, rule, "PanelForces.panel_forces", c.where, _out(r, "panel_forces"), want, t, "F = rho Gamma (v x l)")
 
 
 def run(chk, repo, tier):
@@ -311,3 +312,6 @@ def run(chk, repo, tier):
     u4(chk, repo)
     i1(chk, repo, only={"TotalLiftDrag", "SumAreas", "Coeffs", "TotalDrag"}, rule="U5", min_decided=6)
     u6(chk, repo)
+    from .c16 import exposure
+
+    exposure(chk, repo, "U7", {"cg": "reference point", "omega": "rotation rate"}, min_decided=4, text="translation law, wiring part: the reference point used by the rotational velocity is the model's cg and the rotation rate is settable: wherever a subsystem of a repository group has an input named cg or omega in some option valuation, the group promotes (or connects) it in that valuation, so that one cg value reaches both the moment and the rotational-velocity components")
